@@ -113,6 +113,9 @@ func runC09(c c09Case) Result {
 	for i, r := range append(append([]genReq(nil), c.Requests...), c.Canary) {
 		res := ts.doReq(r)
 		tags = append(tags, "req:"+r.Class, fmt.Sprintf("status:%d", res.Status))
+		if r.Query != "" {
+			tags = append(tags, "with-query-string")
+		}
 		if r.Framing != "" {
 			tags = append(tags, "framing:"+r.Framing)
 		}
